@@ -180,3 +180,80 @@ Qed.
 Lemma tr_bookkeeping_model_ok_sample :
   forallb (fun N => forallb (fun dim => tr_bookkeeping_model_ok N dim) (seq 0 N)) (seq 2 6) = true.
 Proof. vm_compute. reflexivity. Qed.
+
+(* ---- the model's own pieces pass the checker for EVERY order >= 2 and every mode (universal; the sample above is an instance) *)
+Definition relabel (N : nat) (a : tr_axis) : tr_axis := match a with ABond k => ABond (k mod N) | AMode k => AMode k end.
+Lemma tr_axis_eqb_refl a : tr_axis_eqb a a = true.
+Proof. destruct a; simpl; apply Nat.eqb_refl. Qed.
+Lemma axes_eqb_refl : forall l, axes_eqb l l = true.
+Proof. induction l as [|a l IH]; simpl; [reflexivity|]. now rewrite tr_axis_eqb_refl, IH. Qed.
+Lemma permute_axes_relabel N l perm : N <> 0 -> permute_axes (map (relabel N) l) perm = map (relabel N) (permute_axes l perm).
+Proof.
+  intros HN. unfold permute_axes. rewrite map_map. apply map_ext. intros p.
+  replace (ABond 0) with (relabel N (ABond 0)) at 1 by (simpl; now rewrite Nat.mod_0_l).
+  apply map_nth.
+Qed.
+Lemma last_map_seq {A} (f : nat -> A) : forall k a d, last (map f (seq a (S k))) d = f (a + k).
+Proof.
+  induction k as [|k IH]; intros a d; [cbn; now rewrite Nat.add_0_r|].
+  change (seq a (S (S k))) with (a :: seq (S a) (S k)). cbn [map].
+  change (last (f a :: map f (seq (S a) (S k))) d) with (last (map f (seq (S a) (S k))) d).
+  rewrite IH. f_equal. lia.
+Qed.
+Lemma adjacent_chain N dim : N <> 0 -> forall len a, adjacent N (map (fun j => (dim + j) mod N) (seq a len)) = true.
+Proof.
+  intros HN. induction len as [|len IH]; intros a; [reflexivity|].
+  cbn [seq map adjacent]. destruct len as [|len]; [reflexivity|].
+  specialize (IH (S a)). cbn [seq map] in *. rewrite IH, andb_true_r. apply Nat.eqb_eq.
+  rewrite Nat.add_mod_idemp_l by exact HN. f_equal. lia.
+Qed.
+Lemma chain_axes_model N dim : 2 <= N -> chain_axes N (tr_chain N dim) = map (relabel N) (subchain_axes N dim).
+Proof.
+  intros HN. assert (HN0 : N <> 0) by lia. unfold tr_chain, subchain_axes.
+  destruct N as [|[|k]]; [lia | lia |]. replace (S (S k) - 1) with (S k) by lia.
+  set (N := S (S k)) in *. set (f := fun j => (dim + j) mod N).
+  unfold chain_axes. change (seq 1 (S k)) with (1 :: seq 2 k) at 1. cbn [map].
+  change (f 1 :: map f (seq 2 k)) with (map f (seq 1 (S k))).
+  rewrite last_map_seq. cbn [map relabel]. rewrite map_app, !map_map. cbn [map relabel]. unfold bond, f.
+  assert (E : ((dim + (1 + k)) mod N + 1) mod N = dim mod N).
+  { rewrite Nat.add_mod_idemp_l by exact HN0. replace (dim + (1 + k) + 1) with (dim + 1 * N) by (unfold N; lia).
+    now rewrite Nat.mod_add by exact HN0. }
+  rewrite E, Nat.mod_mod by exact HN0. reflexivity.
+Qed.
+Theorem tr_bookkeeping_model_ok_all N dim : 2 <= N -> dim < N -> tr_bookkeeping_model_ok N dim = true.
+Proof.
+  intros HN Hd. assert (HN0 : N <> 0) by lia. unfold tr_bookkeeping_model_ok, tr_bookkeeping_ok.
+  rewrite !andb_true_iff. repeat split.
+  - unfold tr_chain. now apply adjacent_chain.
+  - apply forallb_forall. intros c Hc. unfold tr_chain in Hc. apply in_map_iff in Hc. destruct Hc as (j & <- & _).
+    apply Nat.ltb_lt. now apply Nat.mod_upper_bound.
+  - apply forallb_forall. intros p Hp. apply Nat.ltb_lt. unfold tr_chain. rewrite map_length, seq_length.
+    unfold tr_idx in Hp. rewrite !in_app_iff in Hp. destruct Hp as [Hp | [Hp | Hp]].
+    + apply in_map_iff in Hp. destruct Hp as (i & <- & Hi). apply in_seq in Hi. lia.
+    + apply in_map_iff in Hp. destruct Hp as (i & <- & Hi). apply in_seq in Hi. lia.
+    + simpl in Hp. lia.
+  - rewrite chain_axes_model by exact HN. rewrite permute_axes_relabel by exact HN0.
+    rewrite (tr_idx_sorts_modes N dim Hd). rewrite map_app, map_map. cbn [map relabel]. apply axes_eqb_refl.
+  - cbn. now rewrite !Nat.eqb_refl.
+  - apply axes_eqb_refl.
+Qed.
+
+(* ---- helper equalities for the optional universal form of the ast tie (the pieces in the syntactic form the source has today) *)
+Lemma filter_neq_seq : forall d a n, d < n ->
+  filter (fun x => negb (Nat.eqb x (a + d))) (seq a n) = seq a d ++ seq (a + S d) (n - d - 1).
+Proof.
+  induction d as [|d IH]; intros a n Hd.
+  - destruct n as [|n]; [lia|]. cbn [seq filter app]. rewrite Nat.add_0_r, Nat.eqb_refl. cbn [negb].
+    replace (a + 1) with (S a) by lia. replace (S n - 0 - 1) with n by lia.
+    assert (H : forall m b, a < b -> filter (fun x => negb (Nat.eqb x a)) (seq b m) = seq b m).
+    { induction m as [|m IHm]; intros b Hb; [reflexivity|]. cbn [seq filter].
+      destruct (Nat.eqb_spec b a); [lia|]. cbn [negb]. f_equal. apply IHm. lia. }
+    apply H. lia.
+  - destruct n as [|n]; [lia|]. cbn [seq filter app]. destruct (Nat.eqb_spec a (a + S d)); [lia|]. cbn [negb]. f_equal.
+    replace (a + S d) with (S a + d) by lia. rewrite IH by lia.
+    replace (n - d - 1) with (S n - S d - 1) by lia. replace (a + S (S d)) with (S a + S d) by lia. reflexivity.
+Qed.
+Lemma filter_neq_seq0 N dim : dim < N -> filter (fun x => negb (Nat.eqb x dim)) (seq 0 N) = remove_nth dim (seq 0 N).
+Proof. intros Hd. rewrite remove_nth_seq by exact Hd. exact (filter_neq_seq dim 0 N Hd). Qed.
+Lemma tr_chain_unfold N dim : 2 <= N -> tr_chain N dim = ((dim + 1) mod N) :: map (fun j => (dim + j) mod N) (seq 2 (N - 2)).
+Proof. intros HN. unfold tr_chain. destruct N as [|[|k]]; [lia | lia |]. replace (S (S k) - 1) with (S k) by lia. replace (S (S k) - 2) with k by lia. reflexivity. Qed.
